@@ -61,6 +61,11 @@ pub struct Case {
     pub inject_kind: u8,
     pub host: String,
     pub split_writes: bool,
+    /// how the settings object is put together: 0 = new() + timeout, starttls, verification (in that order);
+    /// 1 = default() as the base; 2 = verification/connector first, StartTLS and timeout afterwards;
+    /// 3 = a clone() of the finished settings is used; 4 = through the blocking LdapConn API
+    #[serde(default)]
+    pub build: u8,
 }
 
 #[derive(Debug, Default)]
@@ -237,17 +242,60 @@ fn run_case(c: &Case) -> Result<(ClientOut, ServerLog), Fail> {
         let port = listener.local_addr().map_err(|e| Fail::new("env-bind", e.to_string()))?.port();
         let log = Arc::new(Mutex::new(ServerLog::default()));
         let srv = tokio::spawn(serve(listener, c.clone(), log.clone()));
-        let mut settings = LdapConnSettings::new().set_conn_timeout(Duration::from_secs(6));
-        if c.scheme == Scheme::StartTls {
-            settings = settings.set_starttls(true);
-        }
-        match c.verify {
-            Verify::Default => {}
-            Verify::Disabled => settings = settings.set_no_tls_verify(true),
-            Verify::TestCa => settings = settings.set_connector(netinfra::ca_connector().map_err(|e| Fail::new("env-tls", e))?),
+        let verify = |s: LdapConnSettings| -> Result<LdapConnSettings, Fail> {
+            Ok(match c.verify {
+                Verify::Default => s,
+                Verify::Disabled => s.set_no_tls_verify(true),
+                Verify::TestCa => s.set_connector(netinfra::ca_connector().map_err(|e| Fail::new("env-tls", e))?),
+            })
+        };
+        let base = if c.build == 1 { LdapConnSettings::default() } else { LdapConnSettings::new() };
+        let mut settings = if c.build == 2 {
+            let mut s = verify(base)?;
+            if c.scheme == Scheme::StartTls {
+                s = s.set_starttls(true);
+            }
+            s.set_conn_timeout(Duration::from_secs(6))
+        } else {
+            let mut s = base.set_conn_timeout(Duration::from_secs(6));
+            if c.scheme == Scheme::StartTls {
+                s = s.set_starttls(true);
+            }
+            verify(s)?
+        };
+        if c.build == 3 {
+            settings = settings.clone();
         }
         let url = format!("{}://{}:{}", if c.scheme == Scheme::Ldaps { "ldaps" } else { "ldap" }, c.host, port);
         let mut out = ClientOut { connected: Ok(()), bind: None };
+        if c.build == 4 {
+            // the blocking API: establishment and the probe bind on a thread of their own
+            let u2 = url.clone();
+            let jh = tokio::task::spawn_blocking(move || -> (Result<(), String>, Option<Result<(u32, String), String>>) {
+                match ldap3::LdapConn::with_settings(settings, &u2) {
+                    Err(e) => (Err(crate::sim::err_kind(&e)), None),
+                    Ok(mut conn) => {
+                        let b = match conn.with_timeout(Duration::from_secs(10)).simple_bind("cn=probe", "secret-password") {
+                            Ok(res) => Ok((res.rc, res.text)),
+                            Err(e) => Err(crate::sim::err_kind(&e)),
+                        };
+                        let _ = conn.with_timeout(Duration::from_secs(2)).unbind();
+                        (Ok(()), Some(b))
+                    }
+                }
+            });
+            match tokio::time::timeout(Duration::from_secs(25), jh).await {
+                Err(_) => return Err(Fail::new("env-timeout", "blocking connection establishment exceeded the 25 s guard")),
+                Ok(Err(_)) => return Err(Fail::new(crate::runner::panic_sig(&crate::runner::take_panics().into_iter().last().unwrap_or_default()), "LdapConn::with_settings panicked")),
+                Ok(Ok((connected, bind))) => {
+                    out.connected = connected;
+                    out.bind = bind;
+                }
+            }
+            let _ = tokio::time::timeout(Duration::from_secs(12), srv).await;
+            let l = std::mem::take(&mut *log.lock().unwrap());
+            return Ok((out, l));
+        }
         match tokio::time::timeout(Duration::from_secs(20), LdapConnAsync::with_settings(settings, &url)).await {
             Err(_) => return Err(Fail::new("env-timeout", "connection establishment exceeded the 20 s guard")),
             Ok(Err(e)) => out.connected = Err(crate::sim::err_kind(&e)),
@@ -383,6 +431,7 @@ fn lane_run(ctx: &Ctx, known: &[KnownFinding]) -> LaneReport {
                 inject_kind: (r >> 20) as u8,
                 host: if (r >> 30) % 2 == 0 || round == 0 { "localhost".into() } else { "127.0.0.1".into() },
                 split_writes: (r >> 33) % 2 == 0,
+                build: if round == 0 { (i % 5) as u8 } else { ((r >> 40) % 5) as u8 },
             };
             let t0 = std::time::Instant::now();
             eval_case(&mut rep, known, &c, |obs| check(&c, obs));
@@ -414,7 +463,7 @@ pub fn property() -> Property {
     Property {
         id: "C17",
         level: "fault_enumeration",
-        rule: "EXHAUSTIVE product of scheme {ldap+StartTLS, ldaps} x verification {default trust store, no_tls_verify, custom connector trusting the test CA} x server certificate {CA-signed for localhost/127.0.0.1, CA-signed for another name, self-signed, expired} x StartTLS reply {success, non-zero code (after which the server still stands ready for a handshake, so a client that ignores the code is exposed), garbage then close, close, well-formed non-extended response, a success bearing a foreign message id (0, id+1, id+7) ahead of the real refusal} x post-reply behaviour {proper handshake, handshake garbage, forged cleartext LDAP responses for the next message ids in the same segment as the StartTLS response then a proper handshake} (168 cells) plus a sweep of 28 non-zero StartTLS result codes (incl. 5, 6, 10, 14) on the cell where everything else would succeed, each with generated parameters (result code, garbage bytes, forged PDU kind, host spelling, server write segmentation); thorough repeats the product 60 times with fresh parameters. The harness's server (tokio + native-tls acceptor, committed test PKI) records every raw byte it receives. Oracle: cleartext holds exactly one StartTLS ExtendedRequest (or nothing on ldaps) and otherwise only TLS records; establishment returns Ok only if the reply was a success, the handshake completed on the server and the certificate is acceptable under the effective settings (and must return Ok when all of that holds for a real StartTLS success); after Ok a bind is received inside TLS, returns the token sent inside TLS (never the forged cleartext one) and its password never appears in the raw log. Non-trivial: every cell (each contains an adversarial or trust-decision element); distinct = cell + parameters.",
+        rule: "EXHAUSTIVE product of scheme {ldap+StartTLS, ldaps} x verification {default trust store, no_tls_verify, custom connector trusting the test CA} x server certificate {CA-signed for localhost/127.0.0.1, CA-signed for another name, self-signed, expired} x StartTLS reply {success, non-zero code (after which the server still stands ready for a handshake, so a client that ignores the code is exposed), garbage then close, close, well-formed non-extended response, a success bearing a foreign message id (0, id+1, id+7) ahead of the real refusal} x post-reply behaviour {proper handshake, handshake garbage, forged cleartext LDAP responses for the next message ids in the same segment as the StartTLS response then a proper handshake} (168 cells) plus a sweep of 28 non-zero StartTLS result codes (incl. 5, 6, 10, 14) on the cell where everything else would succeed, each with generated parameters (result code, garbage bytes, forged PDU kind, host spelling, server write segmentation, the way the settings object is built: new() / default() base, two orders of the builder calls, a clone, or the blocking LdapConn API); thorough repeats the product 60 times with fresh parameters. The harness's server (tokio + native-tls acceptor, committed test PKI) records every raw byte it receives. Oracle: cleartext holds exactly one StartTLS ExtendedRequest (or nothing on ldaps) and otherwise only TLS records; establishment returns Ok only if the reply was a success, the handshake completed on the server and the certificate is acceptable under the effective settings (and must return Ok when all of that holds for a real StartTLS success); after Ok a bind is received inside TLS, returns the token sent inside TLS (never the forged cleartext one) and its password never appears in the raw log. Non-trivial: every cell (each contains an adversarial or trust-decision element); distinct = cell + parameters.",
         assumptions: &[
             "real sockets and wall time: verdicts are functions of the cell, timing is never borderline (guards of 10-20 s yield an env-* failure = inconclusive)",
             "only the default tls-native backend (OpenSSL) is exercised; the test CA is not in the system trust store, so 'default' verification must refuse every test certificate",
